@@ -1,4 +1,4 @@
-import RsslVerif.Lemmas.GenMslVecMain
+import RsslVerif.Lemmas.GenMslVecAssign
 import RsslVerif.Thm.C02Sem
 /-!
 # C02, vector layer — the Metal exporter preserves the meaning of vector expressions
@@ -70,6 +70,22 @@ theorem literal_vector_cast_panics_msl (cx : Ctx) (vvty : Var → VTy) (n : Nat)
     (∃ s, genMV cx vvty (.cast (.vec .lit n) (.vvar id)) = .error (.panic s)) ∧
     (∃ s, genMV cx vvty (.cast (.vec .flit n) (.vvar id)) = .error (.panic s)) := by
   exact ⟨⟨_, rfl⟩, ⟨_, rfl⟩⟩
+
+/-- **statement-level vector assignment** `v = E;`, `v.xz = E;`, `v op= E;`, `v.yx op= E;` (vector local / static in scope, a
+swizzle with distinct components of a variable of vector type; all assignment operators — `%=` only on integers): the emitted
+statement is accepted by Metal's rules (implicit conversion of the right operand: the identity here, distinct swizzle
+components) and leaves the same value, scalar store and vector store as the typed assignment. -/
+theorem gen_sem_msl_vec_assign {W : World} {M : Msl.MWorld} {env : VAst.VEnv} {cx : Ctx} {vvty : Var → VTy} {vis : Var → Bool}
+    {rsv : Nat → List Var} (hag : VAgreeM cx vis env vvty) (hw : Worlds cx rsv W M)
+    {o : IntrinsicOp} {b : BinOp} {lhs rhs : VExpr} {lhs' rhs' : VAExpr} {T : VTy}
+    (hf : mslOpForm o = .binary b) (hgl : genMV cx vvty lhs = .ok lhs') (hgr : genMV cx vvty rhs = .ok rhs')
+    (hok : VIr.assignOK W.sig cx.vty vvty lhs rhs = some T) (hpl : placeOKM vis vvty lhs = true)
+    (hol : VOk.okMV (side cx W vis rsv) vvty lhs = true) (hor : VOk.okMV (side cx W vis rsv) vvty rhs = true)
+    (hsem : irOpSem o = .assign ∨ ∃ m, irOpSem o = .compound m ∧ binSide m T ∧ (m = .mod → T.scalar ≠ .float)) :
+    genMV cx vvty (.op o (.cons lhs (.cons rhs .nil))) = .ok (.bin b lhs' rhs') ∧
+    ∀ ρ, (∀ y, VOk.shaped (vvty y) (ρ y) = true) → ∀ σ,
+      VMsl.evalTop M env ρ (.bin b lhs' rhs') σ = VIr.evalTop W ρ (.op o (.cons lhs (.cons rhs .nil))) σ :=
+  ⟨by simp [genMV, hf, genMBinary, hgl, hgr], sim_massign hag hw hf hgl hgr hok hpl hol hor hsem⟩
 
 /-! ## matrices: orientation -/
 
@@ -191,5 +207,12 @@ theorem narrowing_to_vec1_is_not_metal :
     VMsl.typeOf C02Sem.M2.msig envV (.cast "int" (.ident "ll")) = none ∧
     VIr.typeOf C02Sem.W2.sig C02Sem.cxW.vty vvtyEx (.cast (.vec .int 1) (.vvar 1)) = some (.vec .int 1) :=
   ⟨rfl, by decide, by decide⟩
+
+/-- `gen_sem_msl_vec_assign` instantiated: `v1.zx += (int2)s0;` -/
+example : ∀ ρ, (∀ y, VOk.shaped (vvtyEx y) (ρ y) = true) → ∀ σ,
+    VMsl.evalTop C02Sem.M2 envV ρ (.bin .SumAssignment (.member (.ident "ll") "zx") (.cast "int2" (.sc (.ident "l")))) σ =
+      VIr.evalTop C02Sem.W2 ρ (.op .SumAssignment (.cons (.swz (.vvar 1) [.Z, .X]) (.cons (.cast (.vec .int 2) (.sc (.var 0))) .nil))) σ :=
+  (gen_sem_msl_vec_assign agreeV C02Sem.worlds2 (o := .SumAssignment) (T := .vec .int 2) rfl rfl rfl (by decide) (by decide) (by decide) (by decide)
+    (Or.inr ⟨.add, rfl, trivial, by simp⟩)).2
 
 end RsslVerif.Thm.C02Vec
